@@ -231,6 +231,18 @@ def theorem_names(prop: str) -> List[str]:
 
 
 # ------------------------------------------------------------------ evaluating cases inside Coq
+def scratch_dir(prop: str) -> Path:
+    """scratch directory for generated case files: one per process, so that concurrent runs of the same property
+    (seeded runs against another checkout, several seeds at once) do not overwrite each other's files"""
+    d = WORK / prop / f"p{os.getpid()}"
+    if not d.exists():
+        d.mkdir(parents=True, exist_ok=True)
+        import atexit
+        import shutil
+        atexit.register(shutil.rmtree, str(d), ignore_errors=True)
+    return d
+
+
 def _run_case_file(args) -> Tuple[int, str]:
     path, timeout = args
     rc, out = sh(["timeout", str(timeout), "coqc", "-Q", str(COQ), "Krrood", path.name], cwd=path.parent,
@@ -242,7 +254,7 @@ def coq_codes(prop: str, header: str, case_type: str, code_fn: str, cases: Seque
               chunk: int = 300, timeout: int = 900, tag: str = "cases") -> List[int]:
     """cases: (gallina term of the case, gallina sx literal of the implementation's outcome).
     Returns one integer per case: what `code_fn case impl` evaluates to (see Base/Sx.v classify)."""
-    d = WORK / prop
+    d = scratch_dir(prop)
     d.mkdir(parents=True, exist_ok=True)
     for old in d.glob(f"{tag}_*"):
         old.unlink()
@@ -281,7 +293,7 @@ def coq_codes(prop: str, header: str, case_type: str, code_fn: str, cases: Seque
 
 def coq_eval_sx(prop: str, header: str, exprs: Sequence[str], timeout: int = 600, tag: str = "detail") -> List[Any]:
     """Evaluate sx-valued Gallina expressions; used to show model / spec outcomes of a flagged case."""
-    d = WORK / prop
+    d = scratch_dir(prop)
     d.mkdir(parents=True, exist_ok=True)
     p = d / f"{tag}.v"
     body = [header]
@@ -307,7 +319,7 @@ def coq_values(prop: str, header: str, exprs: Sequence[str], chunk: int = 300, t
                tag: str = "vals") -> List[Any]:
     """Bulk evaluation: each expr is a Gallina term of type sx; returns the parsed values (nested ints/lists),
     one per expr, evaluated by vm_compute in parallel coqc processes of `chunk` expressions each."""
-    d = WORK / prop
+    d = scratch_dir(prop)
     d.mkdir(parents=True, exist_ok=True)
     for old in d.glob(f"{tag}_*"):
         old.unlink()
@@ -497,7 +509,18 @@ class Report:
             "known_findings_reported": self.known_lines,
             "notes": self.notes[:50],
         })
-        cov.update(self.extra)
+        # extra keys are welcome in the evidence, but the keys the schema types must keep their type: a mistyped extra
+        # value is kept under "<key>_note" instead of overwriting the measured one
+        typed = {"evaluations": int, "distinct_nontrivial": int, "rule": str, "samples": list, "states": int,
+                 "transitions": int, "traces_validated_against_impl": int, "obligations": int, "discharged": int,
+                 "checker_cmd": str, "trusted_base": list, "programs": int, "disagreements_checked": int,
+                 "explanation": str, "exhaustive": bool}
+        for k, v in self.extra.items():
+            t = typed.get(k)
+            if t is not None and (not isinstance(v, t) or (t is int and isinstance(v, bool))):
+                cov[k + "_note"] = v
+            else:
+                cov[k] = v
         ev = {
             "property_id": self.prop, "tier": self.tier, "seed": self.seed, "level": self.level,
             "coverage": cov, "assumptions": self.assume, "wall_s": round(time.time() - self.t0, 2),
